@@ -71,3 +71,7 @@ package imagetype
 //@   ensures [C17] it == ImageXMP ==> r0 == "application/rdf+xml"
 //@   ensures [C17] it == ImageAVIF ==> r0 == "image/avif"
 //@   ensures [C17] it == ImagePPM ==> r0 == "image/x-portable-pixmap"
+//@   ensures [C17] it == ImageJP2K ==> r0 == "image/jp2"
+//@   ensures [C17] it == ImageSVG ==> r0 == "image/svg+xml"
+//@   ensures [C17] it == ImageMAGICK ==> r0 == "image/magick"
+//@   ensures [C17] it > ImageMAGICK ==> r0 == "application/octet-stream"
